@@ -27,8 +27,20 @@ class AsyncioRunner(BaseRunner):
         self.asyncio_loop.call_soon_threadsafe(self._setup_payload, payload)
 
     def run_payload(self, payload: Callable[[], Coroutine]):
-        future = asyncio.run_coroutine_threadsafe(payload(), self.asyncio_loop)
-        return future.result()
+        # Hand exceptions over as plain results: the futures chained between the
+        # threads re-create some exceptions (e.g. TimeoutError) instead of passing
+        # them on, and treat an exception that is falsy as "no exception" at all.
+        async def outcome():
+            try:
+                return True, await payload()
+            except Exception as exception:
+                return False, exception
+
+        future = asyncio.run_coroutine_threadsafe(outcome(), self.asyncio_loop)
+        success, result = future.result()
+        if success:
+            return result
+        raise result
 
     def _setup_payload(self, payload: Callable[[], Awaitable]):
         task = self.asyncio_loop.create_task(self._monitor_payload(payload))
